@@ -151,6 +151,17 @@ package flows
 //@   invariant forall j int :: (0 <= j && j < len(removed)) ==> (removed[j] != nil && !memberOf(c.groups, removed[j].UUID()) && old(memberOf(c.groups, now(removed[j].UUID()))))
 //@   invariant forall j int, m int :: (0 <= j && j < len(removed) && $i < m && m < len(c.assets.(*engine.sessionAssets).groups.all)) ==> removed[j].UUID() != c.assets.(*engine.sessionAssets).groups.all[m].UUID()
 
+// ---- C03 (field values): two values are equal exactly when every facet is: text, number, the three locations, and the
+// datetime as an instant (not as a time.Time structure: the same instant read from JSON and parsed from text carry different
+// *time.Location pointers)
+//@ pred sameInstant(a *types.XDateTime, b *types.XDateTime) bool := (a == nil && b == nil) || (a != nil && b != nil && instant(a.native) == instant(b.native))
+//@ pred sameNumber(a *types.XNumber, b *types.XNumber) bool := (a == nil && b == nil) || (a != nil && b != nil && dec(a.native) == dec(b.native))
+//@ func (v *Value) Equals
+//@   requires (v != nil ==> v.Text != nil) && (o != nil ==> o.Text != nil)
+//@   ensures [both_nil] (v == nil && o == nil) ==> result
+//@   ensures [one_nil] ((v == nil) != (o == nil)) ==> !result
+//@   ensures [facet_by_facet] (v != nil && o != nil) ==> (result <==> (v.Text.native == o.Text.native && sameInstant(v.Datetime, o.Datetime) && sameNumber(v.Number, o.Number) && v.State == o.State && v.District == o.District && v.Ward == o.Ward))
+
 // parsing a raw field value builds a new Value; it reads the environment and location hierarchy and writes nothing
 // (assumed frame: the computed call graph through the location resolver interface is too coarse)
 //@ func FieldValues.Parse
@@ -162,6 +173,10 @@ package flows
 //@   requires arg3 != nil && contactAssetsOK(arg3) && groupsOK(arg3.groups) && noDupUUIDs(arg3.groups.groups)
 //@   assigns Contact::name, Contact::language, Contact::status, Contact::timezone, Contact::urns, Contact::ticket, GroupList::groups, ContactURN::*, elems[*ContactURN], elems[*Group], map[string]*FieldValue, FieldValue::*, Value::*, Ticket::*, effects(EventCallback)
 //@   ensures [rep] contactAssetsOK(arg3) && groupsOK(arg3.groups) && noDupUUIDs(arg3.groups.groups)
+
+// when an input was created is fixed when it is built
+//@ interface Input.CreatedOn
+//@   pure
 
 // the type name of an event is fixed when it is built (events.BaseEvent.Type_)
 //@ interface Event.Type
